@@ -455,11 +455,6 @@ def attr_family(qualname):
 
 
 MULTI_TAGS = ("multi-client:", "client-after-close:", "shared-channel:", "context-manager:")
-# what a call of an RPC does when the client method that runs is the same-named MIX-IN method (exception type -> text)
-MIXIN_RAISES = {"AttributeError": "'NoneType' object has no attribute",          # request omitted: the mix-in reads request.<field>
-                "ValueError": "Request has no \"",                               # dict with the own request's fields -> mix-in request type
-                "InternalServerError": "Exception serializing request",          # instance of the own request class -> mix-in serializer
-                "ResourceExhausted": "metadata size exceeds"}                    # a very large `name` copied into the routing header
 
 
 def pb2_stem_typed(spec, methods):
@@ -477,7 +472,7 @@ def classify(spec, me, asy, what, detail="", paths=None, scope=None, evidence=No
     (decided from the spec) AND the failure is the recorded SYMPTOM at the recorded site (failure class, exception text, the path the
     server saw, which stubs the transport opened); every other failure on the same input keeps its own, unlisted key.
     detail: the failure text; paths: paths the server saw for this call; scope: methods of the service whose client/transport
-    failed (session failures); evidence: {(asy, method): the transport opened the mix-in stub and never the service's own}"""
+    failed (session failures); evidence: {(asy, method): the constructed transport never opened the service's own stub for that RPC}"""
     import re
     whole = spec.get("_whole", spec)
     # ---- pb2-named-proto-file: trigger = a request/response type of THIS service from a file named *_pb2.proto;
@@ -488,14 +483,18 @@ def classify(spec, me, asy, what, detail="", paths=None, scope=None, evidence=No
     if what == "serializer-family" and me is not None and pb2_stem_typed(whole, [me]):
         return "pb2-named-proto-file"
     # ---- mixin-shadows-own-rpc: trigger = an own RPC named like an Operations/Locations mix-in RPC that is listed AND has a rule;
-    # site = the transport opened the mix-in's stub and never the service's own; symptom = what the mix-in method does with the call
+    # site = the constructed transport never opened the service's own stub (it was replaced); symptom = what the mix-in method does with the call
     if me is not None and me["name"] in mixed_in(spec) and MIXIN_FAMILY[me["name"]] in ("ops", "loc") \
             and (evidence or {}).get((bool(asy), me["name"])):
         mp = f"/{MIXINS[MIXIN_FAMILY[me['name']]][0]}/{me['name']}"
         base = next((what[len(t):] for t in MULTI_TAGS if what.startswith(t)), what)
         if base in ("path", "arity", "payload", "return", "own-server-calls") and paths == [mp]:
             return "mixin-shadows-own-rpc:operations-locations"
-        if base.startswith("raised:") and base[7:] in MIXIN_RAISES and MIXIN_RAISES[base[7:]] in detail:
+        own = f"/{svc_pkg(spec)}.{spec.get('service', SERVICE)}/{me['name']}"
+        if base.startswith("raised:") and paths is not None and own not in paths:
+            # the mix-in method was handed the own RPC's request (None / a dict / an instance of another class / an iterator) and
+            # raised — AttributeError, TypeError, ValueError, InternalServerError, ResourceExhausted … depending on the request —
+            # while no call reached the service's own path
             return "mixin-shadows-own-rpc:operations-locations"
     # ---- void-streaming:async-call-dropped: trigger = asyncio AND reply Empty AND (server- or client-streaming) — never a void
     # UNARY RPC; symptom = NO call reached the server, or (client-streaming) the released call was cut short
@@ -758,7 +757,8 @@ def judge_multi(ctx, spec, codec, mplan, mout, fail, payload):
             ctx.count("multi_client", f"{fl}:{st['phase']}")
             ctx.traces += 1
             if "ok" not in res_:
-                fail(f"{tag}:raised:{res_.get('raised')}", f"{fl} client {st['client']}@{st['target']} {me['name']} raised {res_.get('raised')}: {res_.get('msg')}", me, asy, extra=extra)
+                fail(f"{tag}:raised:{res_.get('raised')}", f"{fl} client {st['client']}@{st['target']} {me['name']} raised {res_.get('raised')}: {res_.get('msg')}", me, asy, extra=extra,
+                     paths=[x["path"] for recs in (res_.get("servers") or {}).values() for x in recs])
                 continue
             seen = [x["path"] for x in res_["servers"].get(st["target"], [])]
             for sn, recs in res_["servers"].items():
@@ -956,8 +956,9 @@ def _run_api(ctx, r, spec, label, per_method, informational, multi_client, files
         opened = {x[0] for x in sess.get("stubs_all", [])}
         for me in spec["methods"]:
             if me["name"] in mixed_in(spec) and MIXIN_FAMILY[me["name"]] in ("ops", "loc"):
-                shadow_ev[(asy, me["name"])] = (f"/{svc_pkg(spec)}.{spec.get('service', SERVICE)}/{me['name']}" not in opened
-                                                and f"/{MIXINS[MIXIN_FAMILY[me['name']]][0]}/{me['name']}" in opened)
+                # construction opens every stub of the transport's wrapped-method table: the service's OWN stub is not among them
+                # (the sync transport opens the mix-in's stub only when a call gets that far)
+                shadow_ev[(asy, me["name"])] = "calls" in sess and f"/{svc_pkg(spec)}.{spec.get('service', SERVICE)}/{me['name']}" not in opened
     if multi is not None:
         judge_multi(ctx, spec, codec, multi[0], multi[1], fail, payload)
     # model traces
@@ -1032,7 +1033,8 @@ def _run_api(ctx, r, spec, label, per_method, informational, multi_client, files
             # ---------------- impl trace, canonical
             if "ok" not in res_:
                 impl = {"error": res_.get("raised")}
-                fail("raised:" + str(res_.get("raised")), f"{fl} {me['name']}({p['mode']}) raised {res_.get('raised')}: {res_.get('msg')}", me, asy, extra=extra)
+                fail("raised:" + str(res_.get("raised")), f"{fl} {me['name']}({p['mode']}) raised {res_.get('raised')}: {res_.get('msg')}", me, asy, extra=extra,
+                     paths=[rec["path"] for rec in res_.get("server") or []])
             else:
                 srv = [rec for rec in res_["server"]
                        if not ({v for k_, v in (list(x) for x in rec.get("metadata", [])) if k_ == "x-verif-call"} & stray_tags)]
